@@ -110,10 +110,12 @@ def irft(data, delta_f):
         ndarray: Scaled data in real space
     """
 
+    # number of real-space samples (even) that gives this half-spectrum length
+    N = 2 * (data.shape[-1] - 1)
     DATA = numpy.fft.ifftshift(
             numpy.fft.irfft(
                     numpy.fft.ifftshift(data, axes=(-1))),
-            axes=(-1)) * data.shape[-1] * delta_f
+            axes=(-1)) * N * delta_f
 
     return DATA
 
@@ -147,11 +149,12 @@ def irft2(data, delta_f):
     Returns:
         ndarray: Scaled data in real space
     """
-    N = data.shape[-1]
+    # full (real-space) size; the half-spectrum is along the last axis, as made by rft2
+    N = data.shape[-2]
     DATA = numpy.fft.ifftshift(
             numpy.fft.irfft2(
                     numpy.fft.ifftshift(data, axes=(-1,-2)), 
-                    axes=(-1,-2)
+                    axes=(-2,-1)
                     ),
             axes=(-1,-2)) * (N * delta_f)**2
     return DATA
